@@ -9,7 +9,7 @@ from ..absint import Evaluator, Unsupported
 from ..flow import show, walk_term
 from ..model import fold_const
 from ..report import ob_ok, ob_fail, ob_undecided
-from .common import is_call, method_call, edge_attr, need, strip_wrappers, strip_not, if_arms, aug_like
+from .common import is_call, method_call, edge_attr, need, strip_wrappers, strip_not, if_arms, aug_like, call_arg
 from . import tables
 
 MAX_PATHS = 20000
@@ -401,9 +401,9 @@ def emit_write_graph(repo, tier="quick"):
             return [("SYM", kind)]
         if isinstance(e, ast.Call) and isinstance(e.func, ast.Name):
             if e.func.id in ("format_atom", "format_node"):
-                ok = len(e.args) >= 2 and isinstance(e.args[1], ast.Name) and (e.args[1].id == cur or (
-                    id(e.args[1]) in cfg.owner and fl.canon(e.args[1], cfg.owner[id(e.args[1])]) == cur_term))
-                return [("NODE", e.func.id)] if ok else [("BAD", "node text of %s" % ast.unparse(e.args[1]) if len(e.args) > 1 else "?")]
+                a1 = call_arg(e, 1, "current")
+                ok = isinstance(a1, ast.Name) and (a1.id == cur or (id(a1) in cfg.owner and fl.canon(a1, cfg.owner[id(a1)]) == cur_term))
+                return [("NODE", e.func.id)] if ok else [("BAD", "node text of %s" % (ast.unparse(a1) if a1 is not None else "?"))]
             if e.func.id == "format_bonding":
                 return [("DESC",)]
             if e.func.id == "str" and len(e.args) == 1:
